@@ -371,7 +371,13 @@ func (state *inflate) readLitDistLens(ctx *dynamicHeaderReader, hdist, hlit int)
 
 			i := int(3 + ret)
 
-			if curr+i > end || prev == -1 {
+			last := curr + i
+			if &count[0] != &ctx.distCount[0] && last > int(litTableSize+hlit) {
+				// the run crosses from the literal/length section into the
+				// distance section, which starts at litLen
+				last += litLen - litTableSize - hlit
+			}
+			if last > end || prev == -1 {
 				err = errInvalidBlock
 				goto END
 			}
